@@ -142,6 +142,23 @@ CLAIMED["C07"] = dict(
               "correspondence + implementation round-trip oracle",
 )
 
+CLAIMED["C09"] = dict(
+    text="On Model/Sdp.v (structured lines): every description of the shape RTCPeerConnection generates "
+         "(wf_generated_b, evaluated each run on the real objects) is a fixed point of parse-then-serialise with all "
+         "fields recovered; for EVERY accepted line list one round of parse/serialise is idempotent and yields "
+         "exactly the stated normal form; ICE candidates and the signaling object<->message mapping round-trip "
+         "(6 theorems). PARTIAL at character level: the lexer/printer (split, re, int, ipaddress) is validated by "
+         "the differential run, not proved. Known finding K8: a host name in c= / a=rtcp: is accepted by the parser "
+         "but makes str() raise.",
+    design_ref="5 / C09",
+    note="Differential correspondence covers real createOffer/createAnswer SDP and objects over a configuration "
+         "walk, generated objects with boundary values, the browser SDPs embedded in tests/test_sdp.py and mutated "
+         "texts; implementation oracles check idempotence, fixed point and field recovery directly. The IP version "
+         "of an address is an oracle field; json is trusted.",
+    technique="Coq proof (fold/segment lemmas, parser invariants, normal form) + differential correspondence + "
+              "implementation oracles",
+)
+
 NOT_YET = "check not built yet in this development snapshot (planned, see DESIGN.md section 10)"
 
 
